@@ -262,9 +262,26 @@ def check_case(case):
     return True, ""
 
 
+# points every run evaluates first: three confirmed shapes of the recorded class several-pairs-on-unreannotated-tree
+# (the same output address twice: AssertionError, nothing written; the node moved by the first pair is hit by the second
+# pair's address: `def g(y: int, y)` is written; two swapped pairs: `def f(a: int, b)` is written)
+FIXED_POINTS = [
+    {"fam": "syncprops", "fn": "sync_properties",
+     "args": [False, "def f(a: int = 1): pass\n", ["f.a", "f.a"], "def g(x, y=2): pass\n", ["g.x", "g.x"], None],
+     "tags": ["noeval", "pairs-2", "nowrap", "same-output-twice"]},
+    {"fam": "syncprops", "fn": "sync_properties",
+     "args": [False, "def g(y: int): pass\n", ["g.y", "g.y"], "def g(x, y): pass\n", ["g.x", "g.y"], None],
+     "tags": ["noeval", "pairs-2", "nowrap", "moved-node-hit-first"]},
+    {"fam": "syncprops", "fn": "sync_properties",
+     "args": [False, "def f(a: int, b: int): pass\n", ["f.b", "f.a"], "def f(a, b): pass\n", ["f.a", "f.b"], None],
+     "tags": ["noeval", "pairs-2", "nowrap", "swap"]},
+]
+
+
 def oracle(rng, tier):
     n = 2500 if tier == "quick" else 14000
     pts = [c for c in fam_syncprops.gen(rng, int(n * 1.45), tier) if c["fn"] == "sync_properties"][:n]
+    pts = [dict(p, args=list(p["args"]), tags=list(p["tags"])) for p in FIXED_POINTS] + pts
     wires = [fam_syncprops.wire_args(p["args"]) for p in pts]
     outs = run_model([dumps([Sym("c14_class")] + w) for w in wires] + [dumps([Sym("c14_holds")] + w) for w in wires])
     classes, mholds = outs[:len(pts)], outs[len(pts):]
@@ -304,7 +321,10 @@ def oracle(rng, tier):
         "distinct_nontrivial": len(seen),
         "rule": "pairs of generated/hand-written modules x 1..3 (input, output) addresses (arguments positional and "
                 "keyword-only, class attributes, module-level assignments, non-existing) x template on/off x eval on/off "
-                "(evaluated values incl. members equal across types and repeated members) x two files / one file, run on "
+                "(evaluated values incl. members equal across types and repeated members) x two files / one file (eval mode "
+                "too); modules with multi-line text constants (blank-only lines, odd indentation) outside the addressed "
+                "positions; several pairs that meet (same output address twice, input address = a later output address, "
+                "swapped pairs; three fixed points of that kind first), run on "
                 "real temporary files; non-trivial = distinct call inside the proved region (guard_C14)",
         "failures": failures,
         "model_impl_property_disagreements": disagree,
